@@ -165,7 +165,60 @@ def r08_1(ctx, rep, S, D, W):
         n += 1
         rep.obligation(ok and okb and okr and ins_ok, "C08/R08.1/digest", "Digest: writer head=%s body=%s reader=%s insert-ok=%s" % (
             head[:1], [x[1] for x in body[0]] if body else None, rb[:1], ins_ok), where(f), sample="Digest: u16 count, then (ChitchatId, NodeDigest)*")
-    rep.floor("codec-pairs", n, 12)
+    # String / str: u16 length prefix then exactly that many bytes
+    if "str" in W and "std::string::String" in D:
+        seqs = items_of(W["str"][2], None)
+        w_ok = bool(seqs) and [(x[0], x[1]) for x in seqs[0]] == [("ser", "u16"), ("bytes", "[u8]")] and "len() as u16" in seqs[0][0][2] and "as_bytes" in seqs[0][1][2]
+        reng = sym.Engine(fx, no_inline={x["id"] for x in D.values() if x["id"] != D["std::string::String"]["id"]})
+        r_ok = False
+        for row in reng.table(D["std::string::String"]["id"], arg_terms={1: ("ptr", ("S", "buf"), ())}):
+            if row.exit != "return" or row.ret is None or row.ret[0] != "agg" or row.ret[2] != "Ok":
+                continue
+            decs = [wire.self_type_of_callee(e[1]) for e in row.calls() if e[1].endswith("Deserializable>::deserialize")]
+            gets = [e for e in row.calls() if sym.strip_all_generics(e[1]).split("::")[-1] == "get"]
+            cons = [e for e in row.calls() if e[1].endswith("::consume")]
+            if decs == ["u16"] and len(gets) == 1 and len(cons) == 1:
+                g = T.resolve_locals(reng, row.store, gets[0][2][1])
+                amt = T.field(g, "end") if g[0] == "agg" else None
+                c_amt = T.resolve_locals(reng, row.store, cons[0][2][1])
+                from_len = amt is not None and any(x[0] == "call" and "u16 as serialize::Deserializable" in x[1] for x in T.subterms(amt))
+                utf8 = any(e[1].endswith("from_utf8") for e in row.calls())
+                same = amt == c_amt or (c_amt[0] in ("call", "obs") and any(x[0] == "call" and sym.strip_all_generics(x[1]).split("::")[-1] == "get" for x in T.subterms(c_amt)))
+                r_ok = same and from_len and utf8
+        n += 1
+        rep.obligation(w_ok and r_ok, "C08/R08.1/string", "str is written as %s; String reader consistent=%s" % (seqs[:1], r_ok), where(D["std::string::String"]),
+                       sample="String: u16 length, then exactly that many UTF-8 bytes (get(..len), from_utf8, consume(len))")
+    # IpAddr: tag byte + 4 / 16 octets
+    if "std::net::IpAddr" in W and "std::net::IpAddr" in D:
+        wf, weng, wout = W["std::net::IpAddr"]
+        reng, rout = wire.reader(fx, D["std::net::IpAddr"], D)
+        want = {"V4": ("std::net::Ipv4Addr::octets", "[u8; 4]"), "V6": ("std::net::Ipv6Addr::octets", "[u8; 16]")}
+        rtab = {}      # tag constant -> decoded array types after the tag
+        for row, calls, val in rout:
+            if row.exit != "return" or row.ret is None or row.ret[0] != "agg" or row.ret[2] != "Ok":
+                continue
+            tags = [c[1][3][2][1] for c in row.cond if c[0] == "truth" and c[2] and c[1][0] == "op" and c[1][1] == "Eq"
+                    and c[1][3][0] == "cast" and c[1][3][2][0] == "c"]
+            if len(tags) == 1:
+                rtab.setdefault(tags[0], []).append([c[0] for c in calls])
+        seen = set()
+        for v, (oct_fn, arr) in want.items():
+            wseq = items_of(wout, v)
+            ok = False
+            tag = None
+            if len(wseq) == 1 and [x[0] for x in wseq[0]] == ["byte", "bytes"]:
+                full = (wout.get((v, "return")) or [[]])[0]
+                tagt, octt = full[0][3], full[1][3]
+                if tagt[0] == "cast" and tagt[2][0] == "c" and octt[0] == "call" and octt[1] == oct_fn:
+                    tag = tagt[2][1]
+                    ok = rtab.get(tag) == [["[u8; 1]", arr]]
+            if ok:
+                seen.add(v)
+            n += 1
+            rep.obligation(ok, "C08/R08.1/ipaddr/%s" % v, "IpAddr::%s: writer %s, reader for tag %s decodes %s" % (v, wseq[:1], tag, rtab.get(tag)),
+                           where(D["std::net::IpAddr"]), sample="IpAddr::%s: tag byte + %s" % (v, arr))
+        rep.obligation(len(rtab) == 2, "C08/R08.1/ipaddr/variants", "IpAddr reader accepts tags %s" % sorted(rtab), where(D["std::net::IpAddr"]))
+    rep.floor("codec-pairs", n, 19)
     rep.instance(n)
 
 
